@@ -2,7 +2,7 @@
 # usage: store_seed2.sh <Cxx> <mN> - round 2: confirms the seed delivered under /tmp/r2/out_<Cxx>/<mN> in the
 # scratch worktree /tmp/r2/wt_<Cxx> and stores it under /verif/seeded/<Cxx>-<mN>.
 ID="$1"; M="$2"
-WT=/tmp/r2/wt_$ID; SD=/tmp/r2/out_$ID/$M; OUT=/verif/seeded/$ID-$M
+R=${R:-/tmp/r2}; WT=$R/wt_$ID; SD=$R/out_$ID/$M; OUT=/verif/seeded/$ID-$M
 export GOFLAGS=-mod=readonly GOPROXY=off GOTOOLCHAIN=auto
 cd $WT || exit 2
 git checkout -q -- . ; git ls-files --others --exclude-standard | grep 'zz_demo' | xargs -r rm -f
@@ -21,17 +21,17 @@ tp=$(echo $pkgs ./controller/ ./speaker/ ./internal/allocator/... ./internal/con
 if go test -vet=off -count=1 -skip TestManager $tp 2>&1 | grep -v '^ok\|no test files' | grep -q .; then go test -vet=off -count=1 -skip TestManager $tp 2>&1 | grep -v '^ok\|no test files' | tail -5; fail "existing tests fail with patch"; fi
 stub
 cp $SD/demo_test.go $place
-if go test -vet=off -count=1 -run 'Demo' ./$dir >/tmp/r2/with.$$ 2>&1; then fail "demo passes with patch"; fi
-grep -q 'build failed\|cannot\|undefined' /tmp/r2/with.$$ && { tail -5 /tmp/r2/with.$$; fail "demo does not build"; }
+if go test -vet=off -count=1 -run 'Demo' ./$dir >$R/with.$$ 2>&1; then fail "demo passes with patch"; fi
+grep -q 'build failed\|cannot\|undefined' $R/with.$$ && { tail -5 $R/with.$$; fail "demo does not build"; }
 git checkout -q -- .
 stub
-if ! go test -vet=off -count=1 -run 'Demo' ./$dir >/tmp/r2/without.$$ 2>&1; then tail -5 /tmp/r2/without.$$; fail "demo fails without patch"; fi
-rm -f $place /tmp/r2/with.$$ /tmp/r2/without.$$; git checkout -q -- .
+if ! go test -vet=off -count=1 -run 'Demo' ./$dir >$R/without.$$ 2>&1; then tail -5 $R/without.$$; fail "demo fails without patch"; fi
+rm -f $place $R/with.$$ $R/without.$$; git checkout -q -- .
 mkdir -p $OUT; cp $SD/patch.diff $SD/demo_test.go $OUT/; [ -f $SD/README.md ] && cp $SD/README.md $OUT/
 python3 - "$ID" "$M" "$OUT" "$dir" <<'PY'
 import json,sys
 pid,m,out,d=sys.argv[1:5]
-meta={"property":pid,"seed":m,"round":2,"source":"independent sub-agent given only the property text and a scratch worktree",
+meta={"property":pid,"seed":m,"round":int(__import__("os").environ.get("ROUND","2")),"source":"independent sub-agent given only the property text and a scratch worktree",
  "demo_dir":d,
  "confirmed_by":"tools/store_seed2.sh: patch applies to /repo HEAD, go build ./... ok, existing tests of touched packages + controller, speaker, allocator, config, layer2, native pass (internal/bgp/frr tests need Docker and cannot run), demo test fails with the patch and passes without",
  "needs_to_manifest":"see README.md (written by the sub-agent)","detected_by":"see results.txt"}
